@@ -159,6 +159,7 @@ def part_cmgroup(s):
         pre, mesh1 = "ap.", m
         Sn = ["ap.wing.S_ref", "ap.tail.S_ref"]
         wn = "ap.wing.widths"
+        Fn, Bn, cg = "ap.aero_states.%s_sec_forces", "ap.%s.b_pts", np.array([0.5, 0.0, 0.1])
     else:
         s1 = builders.struct_surface("wing", m, sym, "tube", with_viscous=True)
         s2 = builders.struct_surface("tail", m2, sym, "tube", with_viscous=True, thickness_cp=np.array([0.01, 0.012]))
@@ -168,6 +169,7 @@ def part_cmgroup(s):
         pre, mesh1 = "AS_point_0.", np.array(p["AS_point_0.coupled.wing.def_mesh"])
         Sn = ["AS_point_0.coupled.wing.S_ref", "AS_point_0.coupled.tail.S_ref"]
         wn = "AS_point_0.coupled.wing.widths"
+        Fn, Bn, cg = "AS_point_0.coupled.aero_states.%s_sec_forces", "AS_point_0.coupled.%s.b_pts", np.array(p["AS_point_0.cg"])
     S = [float(p[n][0]) for n in Sn]
     ch = np.linalg.norm(mesh1[-1] - mesh1[0], axis=1)  # straight leading-edge to trailing-edge distance
     w = np.array(p[wn])
@@ -177,6 +179,17 @@ def part_cmgroup(s):
     got = np.array(p[pre + "CM"])
     e = np.abs(got - want).max() / max(np.abs(want).max(), 1e-12)
     viol = []
+    # the moment itself: panel forces of every surface at the mid points of its bound vortices (of the analysed, deformed lattice), about the cg
+    Mh = np.zeros(3)
+    for n in ("wing", "tail"):
+        F, B = np.array(p[Fn % n]), np.array(p[Bn % n])
+        Ms = np.cross(0.5 * (B[:, 1:] + B[:, :-1]) - cg, F).sum(axis=(0, 1))
+        if sym:
+            Ms = np.array([0.0, 2.0 * Ms[1], 0.0])
+        Mh += Ms
+    e2 = np.abs(M - Mh).max() / max(np.abs(Mh).max(), 1e-12)
+    if not e2 <= 1e-10:
+        viol.append(dict(sig=dict(oracle="defining_identity", observable="M", group=s["group"], through_group=True), msg="%s: M = %s but the panel forces of all surfaces about the cg give %s (rel %.2e)" % (s["group"], np.array2string(M, precision=8), np.array2string(Mh, precision=8), e2), measure=float(e2)))
     if not e <= 1e-10:
         viol.append(dict(sig=dict(oracle="defining_identity", observable="CM", group=s["group"], through_group=True), msg="%s: CM = %s but M / (q S_ref_total MAC of the first surface) = %s (rel %.2e)" % (s["group"], np.array2string(got, precision=8), np.array2string(want, precision=8), e), measure=float(e)))
     return dict(viol=viol, nontrivial=bool(np.abs(M).max() > 1e-6), digest=digest_arrays(got), transitions=1, validated=1)
